@@ -14,6 +14,9 @@ def run_common(ctx, prop, modules, l1_scripts, stride, nops):
     failed = ctx.lean_stage(modules)
     quick = ctx.tier == "quick"
     found_input = False
+    ctx.run_regressions()
+    if ctx.violations:
+        found_input = True
     # ---- known findings: replay each witness, print while it still fails ----
     still = {}
     for kf in ctx.known:
@@ -51,7 +54,7 @@ def run_common(ctx, prop, modules, l1_scripts, stride, nops):
             ctx.known_finding(next(k for k in ctx.known if k["id"] == kf))
             continue
         key = (f.fmt.name if f.fmt else f.name.split("-")[0], f.cat)
-        if key in reported:
+        if key in reported or sum(1 for k in reported if k[1] == f.cat) >= 3:
             continue
         reported.add(key)
         found_input = True
